@@ -74,6 +74,8 @@ def wire_devs(trace, is_client):
                     s['own_cancel'] = True
                 continue
             model = REQ[type(f)]
+            if f.flags_follows and getattr(f, 'flags_complete', False):
+                devs.append('C08:COMPLETE-flag-on-a-fragment-that-is-followed-by-more-payload')
             st[sid] = dict(model=model, side='req', own_complete=(model in ('rr', 'rs', 'fnf')) or bool(getattr(f, 'flags_complete', False)),
                            own_error=False, own_cancel=False, peer_complete=False, peer_terminal=False,
                            midfrag=bool(f.flags_follows), dead=False)
@@ -92,6 +94,9 @@ def wire_devs(trace, is_client):
                 devs.append('frame-between-fragments-of-own-frame:' + type(f).__name__)
             else:
                 s['midfrag'] = bool(f.flags_follows)
+                if f.flags_follows and f.flags_complete:
+                    # COMPLETE closes the sending direction: it belongs on the last fragment only
+                    devs.append('C08:COMPLETE-flag-on-a-fragment-that-is-followed-by-more-payload')
                 if not f.flags_follows and f.flags_complete and (model == 'ch' or side == 'resp'):
                     s['own_complete'] = True
             continue
@@ -115,6 +120,8 @@ def wire_devs(trace, is_client):
                 devs.append('C08:%s:%s:PAYLOAD-after-own-COMPLETE' % (model, side))
             if f.flags_follows:
                 s['midfrag'] = True
+                if f.flags_complete:
+                    devs.append('C08:COMPLETE-flag-on-a-fragment-that-is-followed-by-more-payload')
             elif f.flags_complete:
                 s['own_complete'] = True
         elif isinstance(f, ErrorFrame):
